@@ -13,16 +13,24 @@ use std::sync::Mutex;
 #[derive(Debug, PartialEq, Clone)]
 enum Outcome { Password, Opened, OtherError(String), Panic(String) }
 
+/// A reader that hands out at most `max` bytes per read call (legal for any `Read`: sockets, pipes, chunking adaptors).
+struct Chunked { c: Cursor<Vec<u8>>, max: usize }
+impl std::io::Read for Chunked { fn read(&mut self, buf: &mut [u8]) -> std::io::Result<usize> { let n = buf.len().min(self.max); self.c.read(&mut buf[..n]) } }
+impl std::io::Seek for Chunked { fn seek(&mut self, p: std::io::SeekFrom) -> std::io::Result<u64> { self.c.seek(p) } }
+thread_local! { static CHUNK: std::cell::Cell<usize> = const { std::cell::Cell::new(usize::MAX) }; }
+
 fn open(reader: &str, bytes: &[u8]) -> Outcome {
     let b = bytes.to_vec();
+    let max = CHUNK.with(|c| c.get());
     // zip-based readers take a reader wherever the caller left it ("xlsx@8": after sniffing the magic bytes, "xlsx@end": after measuring the length)
     let (reader, at) = match reader.split_once('@') { Some((r, "8")) => (r, 8u64.min(b.len() as u64)), Some((r, _)) => (r, b.len() as u64), None => (reader, 0) };
-    let cur = |v: Vec<u8>| { let mut c = Cursor::new(v); c.set_position(at); c };
+    let cur = |v: Vec<u8>| { let mut c = Cursor::new(v); c.set_position(at); Chunked { c, max } };
+    let plain = |v: Vec<u8>| Chunked { c: Cursor::new(v), max };
     let r = guarded(|| match reader {
         "xlsx" => match Xlsx::new(cur(b.clone())) { Ok(_) => Outcome::Opened, Err(XlsxError::Password) => Outcome::Password, Err(e) => Outcome::OtherError(format!("{e:?}")) },
         "xlsb" => match Xlsb::new(cur(b.clone())) { Ok(_) => Outcome::Opened, Err(XlsbError::Password) => Outcome::Password, Err(e) => Outcome::OtherError(format!("{e:?}")) },
-        "xls" => match Xls::new(Cursor::new(b.clone())) { Ok(_) => Outcome::Opened, Err(XlsError::Password) => Outcome::Password, Err(e) => Outcome::OtherError(format!("{e:?}")) },
-        _ => match Ods::new(Cursor::new(b.clone())) { Ok(_) => Outcome::Opened, Err(OdsError::Password) => Outcome::Password, Err(e) => Outcome::OtherError(format!("{e:?}")) },
+        "xls" => match Xls::new(plain(b.clone())) { Ok(_) => Outcome::Opened, Err(XlsError::Password) => Outcome::Password, Err(e) => Outcome::OtherError(format!("{e:?}")) },
+        _ => match Ods::new(plain(b.clone())) { Ok(_) => Outcome::Opened, Err(OdsError::Password) => Outcome::Password, Err(e) => Outcome::OtherError(format!("{e:?}")) },
     });
     match r { Ok(o) => o, Err(p) => Outcome::Panic(p) }
 }
@@ -112,7 +120,17 @@ fn build(ch: &mut Chooser, family: &str) -> (&'static str, Vec<u8>, String, bool
             if kind == 4 { stream[4] = 0x00; stream[5] = 0x05; }
             if ch.flag("workbook-in-regular-sectors") && stream.len() < 4096 { stream.resize(4096, 0); }
             let lay = layout(ch);
-            ("xls", cfb::simple(&[(if kind == 4 { "Book" } else { "Workbook" }, stream)], &lay), format!("BIFF FILEPASS kind {kind} (0 RC4, 1 XOR, 2/3 CryptoAPI, 4 BIFF5 XOR in a Book stream), after WRITEPROTECT: {after_writeprotect}, {lay:?}"), true)
+            // the macro storage of a protected workbook is not encrypted and is read before the workbook stream: whatever it
+            // holds (here a private class module with control references), the answer is still "password"
+            let with_vba = ch.flag("protected-workbook-carries-a-vba-project(private module, control reference)");
+            let file = if with_vba {
+                use crate::gen::ovba::*;
+                let pr = VProject { codepage: 1252, modules: vec![VModule { name: "Secret".into(), stream_name: "Secret".into(), source: b"Option Private Module\r\nSub A()\r\nEnd Sub\r\n".to_vec(), text_offset: 0, mode: 0, class_module: true, read_only: true, private: true }], refs: vec![VRef { name: "stdole".into(), kind: RefKind::Registered }, VRef { name: "MSForms".into(), kind: RefKind::Control { original: true, extended_name: true } }], compat_version: true, descriptive: true };
+                let mut e = vec![cfb::Entry::stream(if kind == 4 { "Book" } else { "Workbook" }, stream, None)];
+                e.extend(project_entries(&pr, true, 1));
+                cfb::write(&e, &lay)
+            } else { cfb::simple(&[(if kind == 4 { "Book" } else { "Workbook" }, stream)], &lay) };
+            ("xls", file, format!("BIFF FILEPASS kind {kind} (0 RC4, 1 XOR, 2/3 CryptoAPI, 4 BIFF5 XOR in a Book stream), after WRITEPROTECT: {after_writeprotect}, {lay:?}"), true)
         }
         "ods" => {
             let extra = ch.choose("manifest-extra-entries", 3);
@@ -159,8 +177,12 @@ fn build(ch: &mut Chooser, family: &str) -> (&'static str, Vec<u8>, String, bool
 
 fn run_case(rep: &Report, ch: &mut Chooser, family: &str, local: &mut Vec<(u64, bool, u64)>) {
     let (reader, bytes, desc, must) = build(ch, family);
+    // how many bytes the reader hands out per read call
+    let chunk = ch.pick("reader-hands-out-at-most-n-bytes-per-read", &[usize::MAX, 7, 500]);
+    CHUNK.with(|c| c.set(chunk));
     rep.eval(1);
     let out = open(reader, &bytes);
+    CHUNK.with(|c| c.set(usize::MAX));
     let replay = || Replay { json: json!({"family": family, "choices": ch.choices(), "case": desc, "reader": reader}), files: vec![(reader.split('@').next().unwrap().to_string(), bytes.clone())] };
     match (&out, must) {
         (Outcome::Password, true) | (Outcome::Opened, false) => {}
@@ -200,7 +222,7 @@ fn huge_package(rep: &Report) {
 pub fn check(rep: &Report) {
     let t = crate::thorough(&rep.tier);
     huge_package(rep);
-    rep.rule("encrypted OOXML: EncryptedPackage of {8, 4095, 4096, 4097, 5000, 70000} bytes x EncryptionInfo {standard, agile, agile > 4096 bytes, absent, extensible 3.3 / 4.3} x DataSpaces storage present/absent x CFB layouts (v3/v4, 5 sector orders, mini order, unused entries, directory order, free sectors), opened with Xlsx and Xlsb from a reader positioned at the start, after the 8 magic bytes or at the end; BIFF: FILEPASS of 5 kinds (BIFF8 RC4, XOR obfuscation, CryptoAPI v2/v4; the 4-byte BIFF5 XOR form in a Book stream) directly after BOF or after WRITEPROTECT, record bodies garbled, mini stream or regular sectors, CFB layouts; ods: manifests (plain, or with comments and line breaks between and inside the entries) with 3-5 entries and encryption-data on the first, a middle, the last, all or several entries, ciphertext content; converse: unencrypted workbooks of all four formats (xlsx under every encoding of C01, xls under CFB layouts with extra streams or an embedded encrypted OOXML object, names and strings that spell 'EncryptedPackage' / 'FILEPASS' / 'encryption-data') must open; full product for ods, <= 4 deviations (thorough: full product) for ooxml, biff and plain; non-trivial = non-default choice");
+    rep.rule("encrypted OOXML: EncryptedPackage of {8, 4095, 4096, 4097, 5000, 70000} bytes x EncryptionInfo {standard, agile, agile > 4096 bytes, absent, extensible 3.3 / 4.3} x DataSpaces storage present/absent x CFB layouts (v3/v4, 5 sector orders, mini order, unused entries, directory order, free sectors), opened with Xlsx and Xlsb from a reader positioned at the start, after the 8 magic bytes or at the end; BIFF: FILEPASS of 5 kinds (BIFF8 RC4, XOR obfuscation, CryptoAPI v2/v4; the 4-byte BIFF5 XOR form in a Book stream) directly after BOF or after WRITEPROTECT, record bodies garbled, mini stream or regular sectors, with or without an (unencrypted) VBA project, CFB layouts; every reader fed whole or in reads of at most 7 / 500 bytes; ods: manifests (plain, or with comments and line breaks between and inside the entries) with 3-5 entries and encryption-data on the first, a middle, the last, all or several entries, ciphertext content; converse: unencrypted workbooks of all four formats (xlsx under every encoding of C01, xls under CFB layouts with extra streams or an embedded encrypted OOXML object, names and strings that spell 'EncryptedPackage' / 'FILEPASS' / 'encryption-data') must open; full product for ods, <= 4 deviations (thorough: full product) for ooxml, biff and plain; non-trivial = non-default choice");
     rep.assume("ciphertext is pseudo-random bytes; EncryptedPackage starts with its 8-byte size prefix");
     let stats = Mutex::new(Stats::default());
     ["ooxml", "biff", "ods", "plain"].par_iter().for_each(|fam| {
